@@ -38,6 +38,7 @@ type CallSite struct {
 	Callee *types.Func
 	Held   int
 	Pos    token.Pos
+	Peer   string // non-empty: the call is made on this other instance of the receiver's type
 }
 
 // FuncLocks is the result for one method.
@@ -48,6 +49,7 @@ type FuncLocks struct {
 	LockSites []token.Pos // Lock() calls on the receiver's mutex
 	Accesses  []Access
 	Calls     []CallSite
+	PeerCalls []CallSite // calls on another instance of the receiver's type
 	Unpaired  []string // problems: exit with lock held, unlock without lock, state differs between paths
 	EntryHeld bool
 	Waits     []WaitSite
@@ -310,6 +312,7 @@ func (a *analyzer) analyzeFunc(fi *core.FuncInfo, entryHeld bool) *FuncLocks {
 	type rec struct {
 		accesses []Access
 		calls    []CallSite
+		peers    []CallSite
 		waits    []WaitSite
 		fcalls   []FieldCall
 		locks    []token.Pos
@@ -418,6 +421,16 @@ func (a *analyzer) analyzeFunc(fi *core.FuncInfo, entryHeld bool) *FuncLocks {
 							}
 						}
 						// same-receiver method call
+						// a method of ANOTHER instance of the receiver's type (other.Entries() inside
+						// this.PutAll(other)): with this instance's mutex held it deadlocks when the two are
+						// the same object, and two such calls crosswise can lock each other out
+						if id, ok := ast.Unparen(sel.X).(*ast.Ident); ok && info.ObjectOf(id) != recv && recv != nil {
+							if o := info.ObjectOf(id); o != nil && types.Identical(o.Type(), recv.Type()) {
+								if fn, ok := info.Uses[sel.Sel].(*types.Func); ok {
+									r.peers = append(r.peers, CallSite{Callee: fn, Held: st.held, Pos: v.Pos(), Peer: id.Name})
+								}
+							}
+						}
 						if id, ok := ast.Unparen(sel.X).(*ast.Ident); ok && info.ObjectOf(id) == recv {
 							if fn, ok := info.Uses[sel.Sel].(*types.Func); ok {
 								r.calls = append(r.calls, CallSite{Callee: fn, Held: st.held, Pos: v.Pos()})
@@ -479,6 +492,7 @@ func (a *analyzer) analyzeFunc(fi *core.FuncInfo, entryHeld bool) *FuncLocks {
 		r := recs[b.Index]
 		fl.Accesses = append(fl.Accesses, r.accesses...)
 		fl.Calls = append(fl.Calls, r.calls...)
+		fl.PeerCalls = append(fl.PeerCalls, r.peers...)
 		fl.Waits = append(fl.Waits, r.waits...)
 		fl.FuncCalls = append(fl.FuncCalls, r.fcalls...)
 		fl.LockSites = append(fl.LockSites, r.locks...)
